@@ -29,6 +29,17 @@ def _codec_of(it, args, kwargs):
     return it.resolve(c) if c is not None else lit('utf-8')
 
 
+def _lossy_errors(it, args, kwargs):
+    """the errors= argument of encode / decode when it is anything but 'strict' (a name, or '?' when it is not a constant)"""
+    e = args[1] if len(args) > 1 else kwargs.get('errors')
+    if e is None:
+        return None
+    k = it.py_key(it.resolve(e))
+    if k == 'strict':
+        return None
+    return k if isinstance(k, str) else '?'
+
+
 def _codec_name(it, codec):
     k = it.py_key(codec)
     return k if isinstance(k, str) else None
@@ -96,7 +107,13 @@ def seq_decode(it, v, args, kwargs, node):
         return UnkV('decode')
     codec = _codec_of(it, args, kwargs)
     name = _codec_name(it, codec)
-    it.event('codec', node, op='decode', value=v, codec=codec)
+    lossy = _lossy_errors(it, args, kwargs)
+    it.event('codec', node, op='decode', value=v, codec=codec, errors=lossy)
+    if lossy:
+        # errors='replace' / 'ignore' ...: never raises, and what the codec cannot decode is altered or dropped
+        if lossy == 'replace':          # one replacement character per undecodable byte (single-byte codecs): same length
+            return seqops.opaque(it, 'str', v.length(), f'decode(errors={lossy!r})', deps=(v,), tags=v.tags)
+        return seqops.opaque_fresh(it, 'str', f'decode(errors={lossy!r})', deps=(v,), tags=v.tags)
     if _ascii_only(v) and (name is None and not args and 'encoding' not in kwargs or
                            (name or '').lower().replace('-', '_') in ('utf_8', 'utf8', 'ascii', 'latin_1', 'latin1')):
         it.op_safe(node, 'decode', 'argument is ASCII by construction (hex digits / numerals)')
@@ -124,7 +141,12 @@ def seq_encode(it, v, args, kwargs, node):
         return UnkV('encode')
     codec = _codec_of(it, args, kwargs)
     name = _codec_name(it, codec)
-    it.event('codec', node, op='encode', value=v, codec=codec)
+    lossy = _lossy_errors(it, args, kwargs)
+    it.event('codec', node, op='encode', value=v, codec=codec, errors=lossy)
+    if lossy:
+        if lossy == 'replace':
+            return seqops.opaque(it, 'bytes', v.length(), f'encode(errors={lossy!r})', deps=(v,), tags=v.tags)
+        return seqops.opaque_fresh(it, 'bytes', f'encode(errors={lossy!r})', deps=(v,), tags=v.tags)
     if v.is_lit() and name is not None:
         try:
             return lit(v.lit_value().encode(name))
@@ -1178,6 +1200,8 @@ def e_fromisoformat(it, args, kwargs, node):
 def e_dateutil_parse(it, args, kwargs, node):
     v = it.resolve(args[0])
     it.may_raise(ValueError, node, 'dateutil.parser.parse', wire='wire' in value_tags(v))
+    # ... and OverflowError (which is not a ValueError) for a numeral that does not fit a C long, e.g. '-49636272630'
+    it.may_raise(OverflowError, node, 'dateutil.parser.parse (numeral out of range)', wire='wire' in value_tags(v))
     return SymV(it.fresh('datetime'), 'datetime', origin=('dateutil', args), tags=value_tags(v))
 
 
